@@ -407,9 +407,8 @@ func init() {
 			return fr.mkErr("non-pointer passed to Unmarshal")
 		}
 		elemT := mustDeref(it.t)
-		if hasSym(args[0]) {
-			panic(pathAbort{"unsupported", "xml.Unmarshal of symbolic bytes"})
-		}
+		// symbolic text: fork over the selector variables it depends on
+		args[0] = fr.concretizeData(args[0])
 		data := string(bytesOf(args[0]))
 		if toks := blobTokenRE.FindAllStringSubmatch(data, -1); toks != nil {
 			for _, m := range toks {
